@@ -399,6 +399,8 @@ func TestC03Sched(t *testing.T) {
 //	6: store [1,2], network at 4, trust span 1; two concurrent Head() callers (shared request, bifurcation)
 //	7: store [1,2], network at 5 and still recent; the tip is gossiped, then two Head() callers one after the other
 //	   (answered from the subjective head while the sync runs: the second must not fall below the first)
+//	8: store [1,2], network at 6; the tip and a forged header of height 5 are gossiped concurrently (the
+//	   bifurcation for the forged one stores 3 and 4 while the sync's range request for 3..5 is in flight)
 var c03EnumConfigs = []SyncSchedScenario{
 	{Prefill: 2, Net: 3, Actors: []SchedActor{{Kind: "gossip", K: 3}, {Kind: "gossip", K: 1, Adv: "twin", After: 1}}},
 	{Prefill: 2, Net: 1, Actors: []SchedActor{{Kind: "gossip", K: 1}, {Kind: "head"}}},
@@ -408,6 +410,7 @@ var c03EnumConfigs = []SyncSchedScenario{
 	{Prefill: 2, Net: 3, RangeErrs: 1, Actors: []SchedActor{{Kind: "gossip", K: 2}, {Kind: "gossip", K: 3, After: 1}}},
 	{Prefill: 2, Net: 2, Span: 1, Actors: []SchedActor{{Kind: "head"}, {Kind: "head"}}},
 	{Prefill: 2, Net: 3, Fresh: true, Actors: []SchedActor{{Kind: "gossip", K: 3}, {Kind: "head", After: 1}, {Kind: "head", After: 2}}},
+	{Prefill: 2, Net: 4, Actors: []SchedActor{{Kind: "gossip", K: 4}, {Kind: "gossip", K: 3, Adv: "forged"}}},
 }
 
 func TestC03Enum(t *testing.T) {
@@ -420,7 +423,7 @@ func TestC03Enum(t *testing.T) {
 		c := *s.Sched
 		c.Tape, c.Canonical = tape, true
 		return SyncScenario{Sched: &c}
-	}, runC03, map[int]bool{0: true, 1: true, 3: true, 4: true, 5: true, 7: true})
+	}, runC03, map[int]bool{0: true, 1: true, 3: true, 4: true, 5: true, 7: true, 8: true})
 }
 
 // TestC07Sched runs the schedule engine for C07: honest deliveries and Head() callers only (plus getter
